@@ -114,11 +114,18 @@ def h_stretch_quantized(c):
           'quantized input rejected (shift)')
 
 
-def _mk_piece(c, pb, i, n_notes):
+def _mk_piece(c, pb, i, n_notes, lean=False):
   P = 'q%d_' % i
   ns = pb.NoteSequence()
   notes = K.add_notes(c, ns, n_notes, prefix=P + 'n')
   tt = K.well_formed_total(c, ns, notes, name=P + 'tt')
+  if lean:
+    # notes and one control change only (the state events multiply the case
+    # splits of the redundant-event rule; they are covered with M <= 2)
+    cc = c.real(P + 'cc_t', 0)
+    ns.control_changes.add(time=cc, control_number=64, control_value=c.int(
+        P + 'cc_v', 0, 127))
+    return dict(ns=ns, notes=notes, tt=tt, cc=cc)
   tp = (c.real(P + 'tp_t', 0), c.real(P + 'tp_q', 10, 480))
   ns.tempos.add(time=tp[0], qpm=tp[1])
   ts = (c.real(P + 'ts_t', 0), c.int(P + 'ts_n', 1, 12))
@@ -149,7 +156,8 @@ def h_concat(c):
   M, n_notes = c.params['M'], c.params['N']
   use_dur = c.params['durations']
   pb, sl = c.pb, c.mod('sequences_lib')
-  pieces = [_mk_piece(c, pb, i, n_notes) for i in range(M)]
+  lean = c.params.get('lean', False)
+  pieces = [_mk_piece(c, pb, i, n_notes, lean) for i in range(M)]
   durs = None
   if use_dur:
     durs = [c.real('dur%d' % i, 0) for i in range(M)]
@@ -194,6 +202,9 @@ def h_concat(c):
   for name, key, val in (('tempos', 'tp', lambda e: (e.qpm,)),
                          ('time_signatures', 'ts', lambda e: (e.numerator,)),
                          ('key_signatures', 'ks', lambda e: (e.key,))):
+    if lean:
+      c.check(len(getattr(res, name)) == 0, 'no %s invented' % name)
+      continue
     evs = [(p[key][0] + offs[i], (p[key][1],)) for i, p in enumerate(pieces)]
     kept = _dedup(c, evs)
     got = [(e.time, val(e)) for e in getattr(res, name)]
@@ -202,7 +213,7 @@ def h_concat(c):
                    for a, b in zip(got, kept)] or [True]),
             '%s: kept events at their shifted times' % name)
   c.check(not res.HasField('subsequence_info'), 'subsequence_info cleared')
-  if M >= 2:
+  if M >= 2 and not lean:
     c.cover('second tempo repeats the first (dropped)',
             c.eq(pieces[0]['tp'][1], pieces[1]['tp'][1]))
     c.cover('first piece has zero duration', c.eq(offs[1], 0))
@@ -422,6 +433,10 @@ def jobs(tier):
   add('h_concat', M=1, N=1, durations=False)
   add('h_concat', M=2, N=1, durations=False)
   add('h_concat', M=2, N=1, durations=True)
+  # three and four pieces (offsets accumulate), notes + control changes only
+  add('h_concat', M=3, N=1, durations=False, lean=True, budget=600)
+  add('h_concat', M=3, N=1, durations=True, lean=True, budget=600)
+  add('h_concat', M=4, N=1, durations=False, lean=True, budget=900)
   add('h_concat_mismatch')
   add('h_repeat', N=1, seq_dur=False, max_rep=2)
   add('h_repeat', N=1, seq_dur=True, max_rep=2)
